@@ -758,6 +758,13 @@ class Interp:
             a_, d_ = N.snap(a), N.snap(d)
             dt = join_dtype(a.dtype, d.dtype)
             return Arr(a.shape, lambda i, j: T.mul(a_.fn(i, j), d_.fn(j)), dt)
+        if getattr(self.ctx, "matmul_havoc", False) and isinstance(a, Arr) and isinstance(b, Arr) and a.ndim == 2 and b.ndim == 2:
+            # opt-in per contract: a general matrix product is a matrix of the right shape with unconstrained entries (the
+            # contract's clauses must not depend on them)
+            if not N.same_extent(self.ctx, a.shape[1], b.shape[0]):
+                raise PyRaise("ValueError", "matmul: dimension mismatch", self.ctx.cur_line)
+            self.ctx.dropped.add("general matrix product: entries unconstrained (havoc)")
+            return Arr.fresh("mm", (a.shape[0], b.shape[1]), "real")
         raise PathAbort("matrix product (needs Mat abstraction)", self.ctx.cur_line)
 
     def ev_Compare(self, n, env):
